@@ -125,6 +125,12 @@ func genC14Once(kind string, r *core.Rng) *c14Case {
 	{
 		c := &c14Case{W: r.Range(8, 40), H: r.Range(8, 40), Kind: kind}
 		c.DPMM = core.PickF(r, []float64{1, 2, 3.7, 5, 8, r.Range(0.5, 10)})
+		small := kind == "lowres" || r.Chance(0.3) // small shapes anywhere on the canvas instead of large ones near the middle
+		if kind == "lowres" {
+			// large canvases at less than one pixel per millimetre
+			c.W, c.H = r.Range(40, 300), r.Range(40, 300)
+			c.DPMM = r.Range(20/math.Min(c.W, c.H), 1)
+		}
 		if c.W*c.DPMM > 320 {
 			c.DPMM = 320 / c.W
 		}
@@ -136,6 +142,9 @@ func genC14Once(kind string, r *core.Rng) *c14Case {
 		n := r.IntRange(1, 3)
 		for k := 0; k < n; k++ {
 			size := math.Min(c.W, c.H) * r.Range(0.4, 0.9)
+			if small {
+				size = math.Min(c.W, c.H) * r.Range(0.15, 0.4)
+			}
 			sk := core.PickS(r, []string{"curved", "poly", "selfx", "nested", "open"})
 			if kind == "rule" {
 				sk = core.PickS(r, []string{"selfx", "nested"})
@@ -178,6 +187,9 @@ func genC14Once(kind string, r *core.Rng) *c14Case {
 				}
 				// keep the drawing position fixed: the view is applied about the drawing point
 				d.View = m[:]
+			}
+			if small {
+				d.X, d.Y = c.W*r.Range(0.1, 0.9), c.H*r.Range(0.1, 0.9)
 			}
 			c.Draws = append(c.Draws, d)
 		}
@@ -568,12 +580,13 @@ func init() {
 	core.Register(&core.Property{
 		ID:    "C14",
 		Title: "Rasterization paints exactly the pixels inside the filled region",
-		Rule: "drawings of 1-3 shapes (curved simple contours, star polygons, self-crossing polygons, nested contours of mixed orientation, open curves) with opaque or (single shape) translucent fills, linear-gradient fills, strokes of 3 caps x 3 joins, NonZero/EvenOdd, views (rotation, anisotropic scale, shear, reflection) about the drawing point, four coordinate systems, z-indices, 0.5-10 px/mm, linear/sRGB/gamma colour spaces are rendered with rasterizer.Draw; " +
+		Rule: "drawings of 1-3 shapes (curved simple contours, star polygons, self-crossing polygons, nested contours of mixed orientation, open curves) with opaque or (single shape) translucent fills, linear-gradient fills, strokes of 3 caps x 3 joins, NonZero/EvenOdd, views (rotation, anisotropic scale, shear, reflection) about the drawing point, four coordinate systems, z-indices, 0.5-10 px/mm (stratum lowres: canvases of 40-300 mm at 0.07-1 px/mm), large shapes near the middle or small shapes anywhere, linear/sRGB/gamma colour spaces are rendered with rasterizer.Draw; " +
 			"160 uniformly drawn pixels and 40 pixels per contour placed 1.6-5 pixels (or around half the stroke width) off the boundary are judged against exact winding numbers and exact distances of an independent flattening (0.01 pixel): more than 1.5 pixels inside => the paint of the topmost covering shape (source-over for the translucent case), more than 1.5 pixels outside everything => untouched; image size, bit-identical second rendering, canvas operations and gradients unchanged",
 		Strata: []core.Stratum{
-			{Name: "mixed", Quick: 500, Thorough: 12000, Gen: genC14("mixed")},
-			{Name: "view", Quick: 300, Thorough: 8000, Gen: genC14("view")},
-			{Name: "rule", Quick: 300, Thorough: 6000, Gen: genC14("rule")},
+			{Name: "mixed", Quick: 500, Thorough: 40000, Gen: genC14("mixed")},
+			{Name: "view", Quick: 300, Thorough: 25000, Gen: genC14("view")},
+			{Name: "rule", Quick: 300, Thorough: 15000, Gen: genC14("rule")},
+			{Name: "lowres", Quick: 300, Thorough: 8000, Gen: genC14("lowres")},
 			{Name: "border", Quick: 300, Thorough: 6000, Gen: genC14("border"), WitnessOnly: true, Note: "shapes crossing the top or the left border of the image: geometry within one pixel outside those borders is accumulated into row 0 / column 0 (integer truncation in the scanx dependency), about 1 case in 100"},
 		},
 		NewCase:  func() any { return &c14Case{} },
